@@ -35,7 +35,7 @@ theorem renderText_spec (o : PyObj) (text : String) (h : renderText o = .ok text
       simp only [hi', Bool.false_eq_true, if_false, hc, if_true]
       cases hl : o.len with
       | ok n => simp [hl] at h; simpa using h.symm
-      | raises m => simp [hl] at h
+      | raises m => simp [hl, lenGuarded, safeStr] at h; simpa using h.symm
     · have hc' : (o.isDictExact || Spec.isSeq o) = false := by simpa using hc
       simp only [h1, h2, hi', Bool.false_eq_true, if_false, hc'] at h
       simp only [hi', Bool.false_eq_true, if_false, hc']
@@ -124,7 +124,10 @@ theorem childNodes_spec (L : Limits) (pvid : Nat) (o : PyObj) (depth : Nat) (cs 
         · rw [hl, h2] at h
           simp only [if_true] at h
           cases hq : o.seq with
-          | raises m => simp [hq, probeList] at h
+          | raises m =>
+            simp [hq, probeList, childrenGuarded] at h
+            subst h
+            simp [h2, Spec.got, Spec.indexed]
           | ok xs =>
             simp only [hq, probeList, Except.ok.injEq] at h
             subst h
@@ -134,13 +137,19 @@ theorem childNodes_spec (L : Limits) (pvid : Nat) (o : PyObj) (depth : Nat) (cs 
           simp only [Bool.false_eq_true, if_false] at h
           simp only [h2', Bool.false_eq_true, if_false]
           cases h3 : o.isExc with
-          | raises m => simp [h3] at h
+          | raises m =>
+            simp [h3, childrenGuarded] at h
+            subst h
+            simp
           | ok b =>
             cases b with
             | true =>
               simp only [h3] at h
               cases hq : o.excArgs with
-              | raises m => simp [hq, probeList] at h
+              | raises m =>
+                simp [hq, probeList, childrenGuarded] at h
+                subst h
+                simp [Spec.got, Spec.indexed]
               | ok xs =>
                 simp only [hq, probeList, Except.ok.injEq] at h
                 subst h
@@ -148,13 +157,19 @@ theorem childNodes_spec (L : Limits) (pvid : Nat) (o : PyObj) (depth : Nat) (cs 
             | false =>
               simp only [h3] at h
               cases h4 : o.hasDict with
-              | raises m => simp [h4] at h
+              | raises m =>
+                simp [h4, childrenGuarded] at h
+                subst h
+                simp
               | ok b =>
                 cases b with
                 | true =>
                   simp only [h4] at h
                   cases hq : o.attrs with
-                  | raises m => simp [hq, probeList] at h
+                  | raises m =>
+                    simp [hq, probeList, childrenGuarded] at h
+                    subst h
+                    simp [Spec.got]
                   | ok kvs =>
                     simp only [hq, probeList, Except.ok.injEq] at h
                     subst h
@@ -162,7 +177,7 @@ theorem childNodes_spec (L : Limits) (pvid : Nat) (o : PyObj) (depth : Nat) (cs 
                 | false =>
                   simp only [h4, Except.ok.injEq] at h
                   subst h
-                  simp [Spec.got]
+                  simp
     · have hds : depthStop (depth : Int) (L.maxDepth : Int) = true := by simp [depthStop]; omega
       simp only [hds, if_true, Except.ok.injEq] at h
       subst h
